@@ -677,13 +677,17 @@ func createConnHandler(
 		fn := func(_ interface{}, stream grpc.ServerStream) error {
 			ctx := stream.Context()
 
-			args := dynamicpb.NewMessage(argsDesc)
-			recvErr := stream.RecvMsg(args)
-			if recvErr != nil && !(recvErr == io.EOF && sd.ClientStreams) {
-				return recvErr
+			// A method that takes one request message gets it before the
+			// backend is contacted. A client stream is forwarded from its
+			// first message on by the pump below, beside the reply loop: a
+			// backend that answers, or refuses, before it reads is heard.
+			var args *dynamicpb.Message
+			if !sd.ClientStreams {
+				args = dynamicpb.NewMessage(argsDesc)
+				if err := stream.RecvMsg(args); err != nil {
+					return err
+				}
 			}
-			// recvErr == io.EOF: a client stream without any message is
-			// forwarded as such.
 
 			if md, ok := metadata.FromIncomingContext(ctx); ok {
 				ctx = metadata.NewOutgoingContext(ctx, md)
@@ -698,17 +702,10 @@ func createConnHandler(
 			if err != nil {
 				return err
 			}
-			if recvErr == nil {
-				// io.EOF: the backend has ended the call already; what it
-				// answered and its status come out of RecvMsg below.
-				if err := clientStream.SendMsg(args); err != nil && err != io.EOF {
-					return err
-				}
-			}
 
 			var inErr error
 			var wg sync.WaitGroup
-			if sd.ClientStreams && recvErr == nil {
+			if sd.ClientStreams {
 				wg.Add(1)
 				go func() {
 					for {
@@ -717,6 +714,9 @@ func createConnHandler(
 							break
 						}
 
+						// io.EOF: the backend has ended the call already;
+						// what it answered and its status come out of the
+						// reply loop.
 						if inErr = clientStream.SendMsg(args); inErr != nil {
 							break
 						}
@@ -733,8 +733,13 @@ func createConnHandler(
 					}
 					wg.Done()
 				}()
-			} else if err := clientStream.CloseSend(); err != nil {
-				return err
+			} else {
+				if err := clientStream.SendMsg(args); err != nil && err != io.EOF {
+					return err
+				}
+				if err := clientStream.CloseSend(); err != nil {
+					return err
+				}
 			}
 			var outErr error
 			for {
